@@ -107,6 +107,10 @@ pub mod c15 {
         pub fn int_text(i: u32) -> String {
             i.to_string()
         }
+        /// BAD (R6): constant precision - exact expansion / tie-to-even digits instead of the shortest ones
+        pub fn fixed0(n: f64) -> String {
+            format!("{:.0}", n)
+        }
         pub fn to_fixed(n: f64, digits: usize) -> String {
             format!("{:.prec$}", n, prec = digits)
         }
